@@ -16,7 +16,10 @@ args = sys.argv[1:]
 all_checks = "--all-checks" in args
 in_repo = "--in-repo" in args
 tier = args[args.index("--tier") + 1] if "--tier" in args else "quick"
-only = args[args.index("--only") + 1 :] if "--only" in args else None
+suffix = args[args.index("--suffix") + 1] if "--suffix" in args else ""
+only = None
+if "--only" in args:
+    only = [a for a in args[args.index("--only") + 1 :] if not a.startswith("--")]
 ids = [c["property_id"] for c in json.load(open(f"{V}/MANIFEST.json"))["checks"]]
 names = sorted(n for n in os.listdir(f"{V}/seeded") if os.path.isfile(f"{V}/seeded/{n}/patch.diff"))
 if only:
@@ -56,7 +59,8 @@ def run_one(name):
             sh("git -C /repo checkout -- .")
         else:
             sh(f"git -C /repo worktree remove --force {repo}")
-    json.dump(out, open(f"{V}/seeded/{name}/result.json", "w"), indent=1)
+    out["seed"] = os.environ.get("VERIF_SEED", "1")
+    json.dump(out, open(f"{V}/seeded/{name}/result{suffix}.json", "w"), indent=1)
     return out
 
 
@@ -67,10 +71,10 @@ else:
         outs = list(ex.map(run_one, names))
 allouts = []
 for n in sorted(os.listdir(f"{V}/seeded")):
-    rp = f"{V}/seeded/{n}/result.json"
+    rp = f"{V}/seeded/{n}/result{suffix}.json"
     if os.path.isfile(rp):
         allouts.append(json.load(open(rp)))
-lines = ["# Seeded changes vs checks", "", "Each row: one change kept under seeded/<name>/ (patch.diff, demo.py, meta.json), applied to a scratch copy of the repository,",
+lines = [f"# Seeded changes vs checks (VERIF_SEED={os.environ.get('VERIF_SEED', '1')})", "", "Each row: one change kept under seeded/<name>/ (patch.diff, demo.py, meta.json), applied to a scratch copy of the repository,",
          "and the quick checks run against it (result.json holds the details).", "",
          "| seeded change | property | caught by its property's check | other checks that also fire | signatures (first) |", "|---|---|---|---|---|"]
 for o in allouts:
@@ -81,4 +85,4 @@ for o in allouts:
     lines.append(row)
     if o["name"] in names:
         print(row)
-open(f"{V}/seeded/RESULTS.md", "w").write("\n".join(lines) + "\n")
+open(f"{V}/seeded/RESULTS{suffix}.md", "w").write("\n".join(lines) + "\n")
